@@ -92,7 +92,7 @@ Proof.
   rewrite zsum_app.
   assert (E1 : zsum (unacked_at (n_send s)) 0 (Z.to_nat (s_start (n_send s))) = 0).
   { rewrite (zsum_ext _ (inr 0 0)); [rewrite zsum_inr; lia|]. intros o Ho. unfold unacked_at, ackedb, inr.
-    assert (E : o <? s_start (n_send s) = true) by lia. rewrite E. lia. }
+    assert (E : o <? s_start (n_send s) = true) by lia. rewrite E. destruct ((0 <=? o) && (o <? 0)) eqn:E'; lia. }
   pose proof (zsum_le1 (unacked_at (n_send s)) (Z.to_nat (Zlen (n_written s) - s_start (n_send s)))
                 (0 + Z.of_nat (Z.to_nat (s_start (n_send s)))) (fun o _ => proj2 (unacked_at_range (n_send s) o))) as E2.
   lia.
@@ -187,8 +187,8 @@ Proof.
   - (* deliver *)
     destruct (nthE (n_emitted s) i) as [f|] eqn:Ei; [|discriminate].
     destruct (handle_frame (n_recv s) (ef_off f) (ef_data f) (ef_fin f)) as [ro r'].
-    assert (Hrep : forall a b c d e g, unacked (report a b s c d e) = unacked s).
-    { intros a b c d e g. destruct (report_fields a b s c d e) as (F1 & _ & _ & F4). unfold unacked. rewrite F1, F4. reflexivity. }
+    assert (Hrep : forall a b c d e, unacked (report a b s c d e) = unacked s).
+    { intros a b c d e. destruct (report_fields a b s c d e) as (F1 & _ & _ & F4). unfold unacked. rewrite F1, F4. reflexivity. }
     destruct ro; inversion H; subst o s'; rewrite ?Hrep; cbn; lia.
   - (* outcome *)
     destruct (nthE (n_emitted s) i) as [f|] eqn:Ei; [|discriminate].
@@ -209,7 +209,7 @@ Proof.
       set (a := ef_off f) in *. set (b := ef_off f + Zlen (ef_data f)) in *.
       assert (E1 : zsum (unacked_at (n_send s)) 0 (Z.to_nat (Zlen (n_written s))) =
                    zsum (unacked_at st') 0 (Z.to_nat (Zlen (n_written s))) + zsum (inr a b) 0 (Z.to_nat (Zlen (n_written s)))).
-      { rewrite <- zsum_plus. apply zsum_ext. intros o Ho. unfold unacked_at. rewrite (A1 o ltac:(lia)). lia. }
+      { rewrite <- zsum_plus. apply zsum_ext. intros o Ho. unfold unacked_at. rewrite (A1 o ltac:(lia)). unfold a, b. lia. }
       rewrite zsum_inr in E1.
       assert (E2 : finbit st' + b2z (ef_fin f && negb (s_acked_fin (n_send s))) <= finbit (n_send s)).
       { unfold finbit. rewrite A2, A3. destruct (ef_fin f) eqn:Ef.
@@ -292,14 +292,14 @@ Inductive fair_rounds : net -> list (list nop) -> net -> Prop :=
 Lemma fair_rounds_progress segs : forall s s', nreach s -> fair_rounds s segs s' ->
   nreach s' /\ unacked s' + Z.of_nat (length segs) <= unacked s /\ n_written s' = n_written s.
 Proof.
-  induction segs as [|seg segs IH]; intros s s' R F; inversion F; subst.
+  induction segs as [|seg segs IH]; intros s s' R F; inversion F as [|? ? s1 ? ? Hnw Hrun Hua Hrest]; subst.
   - cbn [length]. split; [exact R|]. split; [lia|reflexivity].
-  - destruct (nowrite_data _ H1) as (D & W0).
-    pose proof (schedule_accounting seg s s1 R D H3) as A.
-    assert (R1 : nreach s1) by (exact (run_sched_reach _ _ _ R D H3)).
-    destruct (IH s1 s' R1 H6) as (R' & A' & W').
+  - destruct (nowrite_data _ Hnw) as (D & W0).
+    pose proof (schedule_accounting seg s s1 R D Hrun) as A.
+    assert (R1 : nreach s1) by (exact (run_sched_reach _ _ _ R D Hrun)).
+    destruct (IH s1 s' R1 Hrest) as (R' & A' & W').
     split; [exact R'|]. split; [cbn [length]; lia|].
-    rewrite W'. clear - H1 H3. revert s H3. induction H1 as [|op t Hop F IH]; intros s H3; cbn [run_sched] in H3.
+    rewrite W'. clear - Hnw Hrun. revert s Hrun. induction Hnw as [|op t Hop F IH]; intros s H3; cbn [run_sched] in H3.
     + inversion H3; reflexivity.
     + destruct (net_step s op) as [[o sx]|] eqn:E; [|discriminate]. rewrite (IH sx H3).
       destruct op; cbn [nowrite_op data_op] in Hop; try contradiction; cbn [net_step] in E.
@@ -338,11 +338,18 @@ Proof.
   intros R Q Hp. destruct (quiet_partition s R Q) as (P1 & P2). split.
   - unfold unacked. rewrite (zsum_ext _ (inr 0 0)); [rewrite zsum_inr; lia|]. intros o Ho.
     pose proof (Zlen_nonneg (n_written s)). destruct (P1 o ltac:(lia)) as [H1|H1]; [|rewrite Hp in H1; destruct H1].
-    unfold unacked_at, ackedb, inr. destruct H1 as [H1|H1].
+    assert (E0 : inr 0 0 o = 0) by (unfold inr; destruct ((0 <=? o) && (o <? 0)) eqn:E'; lia). rewrite E0.
+    unfold unacked_at, ackedb. destruct H1 as [H1|H1].
     + assert (E : o <? s_start (n_send s) = true) by lia. rewrite E. lia.
     + apply contains_mem in H1. rewrite H1. destruct (o <? s_start (n_send s)); cbn; lia.
   - intros He. unfold finbit. destruct (s_fin (n_send s)) eqn:Ef; [|reflexivity].
     destruct (P2 ltac:(unfold eof; congruence)) as [X|X]; [congruence|rewrite X; reflexivity].
+Qed.
+
+Lemma lose_from_nowrite : forall l i, Forall nowrite_op (lose_from i l).
+Proof.
+  induction l as [|f t IH]; intros i; cbn [lose_from]; [constructor|].
+  destruct (noout f); cbn [app]; [constructor; [exact Logic.I|]|]; apply IH.
 Qed.
 
 Lemma fair_round_exists s ms : nreach s -> 0 < ms -> 0 < unacked s ->
@@ -361,8 +368,7 @@ Proof.
   destruct RR as (s' & Hrun & _ & _ & _ & _ & _ & GU & HUA).
   exists s'. split; [rewrite run_sched_app, Hr1; exact Hrun|]. split; [|split].
   - apply Forall_app. split; [|unfold round_ops; repeat constructor].
-    unfold lose_all. generalize 0. induction (n_emitted s) as [|f t IH]; intros i; cbn [lose_from]; [constructor|].
-    destruct (noout f); cbn [app]; [constructor; [exact Logic.I|]|]; apply IH.
+    apply lose_from_nowrite.
   - rewrite (useful_acks_app _ _ _ _ Hr1), HUA. pose proof (useful_acks_nonneg (lose_all s) s).
     assert (E : (0 <? Zlen d) || (fin && negb (s_acked_fin (n_send s1))) = true); [|rewrite E; cbn; lia].
     destruct GU as [GU|(GU1 & GU2)]; [apply orb_true_iff; left; lia|]. subst fin.
@@ -370,3 +376,34 @@ Proof.
     destruct (s_fin (n_send s1)); [|lia]. destruct (s_acked_fin (n_send s1)); [lia|]. apply orb_true_r.
   - rewrite app_length. pose proof (lose_from_length (n_emitted s) 0). unfold lose_all, round_ops, Zlen in *. cbn [length]. lia.
 Qed.
+
+(* non-vacuity: three rounds with reordering, duplication, a loss and a retransmission; unacked = 2 bytes + FIN = 3 *)
+Definition rounds_state : net :=
+  match run_sched net_init [NWrite [1; 2] false; NEmit 1 None; NEmit 1 None; NWrite [] true] with
+  | Some s => s | None => net_init end.
+
+Definition rounds_segs : list (list nop) :=
+  [ [NDeliver 1; NDeliver 1; NOutcome 1 true];
+    [NOutcome 0 false; NEmit 5 None; NDeliver 2; NOutcome 2 true];
+    [NEmit 5 None; NDeliver 3; NPop; NOutcome 3 true] ].
+
+Example fair_rounds_example :
+  nreach rounds_state /\ unacked rounds_state = 3 /\
+  exists s', fair_rounds rounds_state rounds_segs s' /\ n_dbytes s' = [1; 2] /\ n_ends s' = 1 /\ s_finished (n_send s') = true.
+Proof.
+  split; [|split; [vm_compute; reflexivity|]].
+  - apply (run_sched_reach [NWrite [1; 2] false; NEmit 1 None; NEmit 1 None; NWrite [] true] net_init);
+      [exact nreach_init|repeat (constructor; [exact Logic.I|]); constructor|vm_compute; reflexivity].
+  - eexists. split.
+    + unfold rounds_segs.
+      eapply fr_cons; [repeat (constructor; [exact Logic.I|]); constructor|vm_compute; reflexivity|vm_compute; discriminate|].
+      eapply fr_cons; [repeat (constructor; [exact Logic.I|]); constructor|vm_compute; reflexivity|vm_compute; discriminate|].
+      eapply fr_cons; [repeat (constructor; [exact Logic.I|]); constructor|vm_compute; reflexivity|vm_compute; discriminate|].
+      apply fr_nil.
+    + vm_compute. repeat split; reflexivity.
+Qed.
+
+Example fair_round_example :
+  fair_round 2 mid_state = [NOutcome 1 false; NOutcome 2 false; NEmit 2 None; NDeliver 3; NOutcome 3 true] /\
+  useful_acks mid_state (fair_round 2 mid_state) = 1 /\ unacked mid_state = 8.
+Proof. vm_compute. repeat split; reflexivity. Qed.
